@@ -912,12 +912,123 @@ def stream_prob_values(ctx, n_quick=130, n_thorough=1500):
     return cases, results
 
 
+KIND_FAMILY = {'loglogit': 'logit', 'logit': 'logit', 'logmev': 'mev', 'mev': 'mev',
+               'lognested': 'nested', 'nested': 'nested', 'mev_nested': 'nested', 'gen_nested': 'nested',
+               'lognested_mev_mu': 'nested_mu', 'nested_mev_mu': 'nested_mu', 'mev_nested_mu': 'nested_mu',
+               'logcnl': 'cnl', 'cnl': 'cnl', 'mev_cnl': 'cnl', 'logcnlmu': 'cnlmu', 'cnlmu': 'cnlmu',
+               'mev_cnl_mu': 'cnlmu', 'ordered_logit': 'ordered_logit', 'ordered_probit': 'ordered_probit'}
+
+
+def value_case_from_build(rng, bc, rows=5):
+    """turn a (disagreeing) case of the structural stream into a case of the value stream"""
+    import copy
+    c = copy.deepcopy(bc)
+    fam = KIND_FAMILY[c['kind']]
+    c['family'] = fam
+    c.pop('fault', None)
+    if fam.startswith('ordered'):
+        if 'e' not in c['tau'] or c['tau']['e'][0] != 'Beta' or len(c['vals']) < 2 or len(set(c['vals'])) != len(c['vals']):
+            return None
+        tb = set_betas(rng, c)
+        tau = c['tau']['e'][1]
+        for k in c['vals'][1:-1]:
+            tb[f'{tau}_diff_{k}'] = rng.choice([0, 0.25, 0.5, 1, 2])
+        c['betas'] = tb
+        c['rows'] = gen_rows(rng, c, rows)
+        c['calls'] = [{'name': 'P', 'fn': fam, 'x': c['x'], 'vals': c['vals'], 'tau': c['tau']}]
+        return c
+    if len(c.get('util', [])) < 1:
+        return None
+    syn = (c.get('syntaxes') or ['legacy'])[0]
+    c.pop('syntaxes', None)
+    c['choice'] = None
+    c['betas'] = set_betas(rng, c)
+    c['rows'] = gen_rows(rng, c, rows)
+    c['shift'] = rng.choice([-3, -1.5, 0.5, 1, 2.25, 5])
+    pf, lf = FAMILY_FN[fam]
+    calls = [{'name': 'AV', 'fn': 'AV'}, {'name': 'V', 'fn': 'V'},
+             {'name': 'P', 'fn': pf, 'syntax': syn}, {'name': 'logP', 'fn': lf, 'syntax': syn}]
+    if fam != 'mev':
+        calls.append({'name': 'Ps', 'fn': pf, 'shift': c['shift'], 'syntax': syn})
+    c['calls'] = calls
+    return c
+
+
+def apply_c05_oracles(ctx, cases, results, st=None, tag='prob_values'):
+    found = 0
+    for c, res in zip(cases, results):
+        if 'exc' in res:
+            continue
+        for r in range(len(c['rows'])):
+            ordered = c['family'].startswith('ordered')
+            bad = oracle_ordered(c, res, r) if ordered else oracle_distribution(c, res, r)
+            if st is not None:
+                st.record({'search': True, 'family': c['family'], 'row': c['rows'][r], 'util': c.get('util')},
+                          nontrivial=bad is not None)
+            for kind, what, detail in bad or []:
+                if kind == 'exception':
+                    continue        # the builder refuses this input: not a probability statement
+                found += 1
+                ctx.violation(f'C05/{tag}/{c["family"]}/{kind}', what,
+                              {'case': c, 'row_index': r, 'row': c['rows'][r]},
+                              'a probability distribution over the available alternatives', detail,
+                              how='PYTHONPATH=/repo/src /venv/bin/python /verif/lib/impl/c05_values.py < [case]')
+    return found
+
+
+def search_failing_input(ctx):
+    """something broke (a tie or a stream): evaluate the property oracle on the disagreeing cases of the
+    structural stream first (the fresh random inputs were already evaluated by stream prob_values)"""
+    st = ctx.streams.get('build')
+    if st is None or not st.disagreements:
+        return
+    rng = ctx.sub_rng('search')
+    cases = []
+    for d in st.disagreements[:40]:
+        bc = d['case']
+        if bc.get('kind') not in KIND_FAMILY:
+            continue
+        for _ in range(2):
+            vc = value_case_from_build(rng, bc)
+            if vc is not None:
+                cases.append(vc)
+    if not cases:
+        return
+    results = run_value_cases(ctx, cases)
+    pv = ctx.stream('prob_values', '')
+    n = apply_c05_oracles(ctx, cases, results, st=pv, tag='prob_values')
+    ctx.notes['failing_input_search'] = {'cases': len(cases), 'oracle_failures': n}
+
+
+def replay_case(ctx, w):
+    """re-evaluate one recorded witness {'case', 'row_index'}; returns (still_fails, details)"""
+    wit = w.get('witness') or {}
+    c = wit.get('case')
+    if not isinstance(c, dict) or 'calls' not in c:
+        return None, 'this file names an obligation / a stream, not an input: re-run ./check'
+    res = ctx.impl('c05_values.py', [c])[0]
+    r = wit.get('row_index', 0)
+    if 'exc' in res:
+        return True, res
+    if c.get('pair_kind'):
+        from props import C06
+        bad = C06.oracle_gen(c, res, r) if c['pair_kind'] == 'gen' else C06.oracle_pair(c, res, r)
+    elif c.get('family', '').startswith('ordered'):
+        bad = oracle_ordered(c, res, r)
+    else:
+        bad = oracle_distribution(c, res, r)
+    bad = [b for b in (bad or [])]
+    return bool(bad), [(k, what) for k, what, _ in bad]
+
+
 def run(ctx):
     ctx.assumptions += ASSUME
     ctx.trusted += TRUSTED
     ctx.build()
     stream_build(ctx)
     stream_prob_values(ctx)
+    if ctx.broken and not ctx.violations:
+        search_failing_input(ctx)
 
 
 def gen_all(ctx):
@@ -926,5 +1037,9 @@ def gen_all(ctx):
 
 def replay(ctx, path):
     w = json.load(open(path))
-    print('replay: not implemented yet')
-    return 2
+    still, detail = replay_case(ctx, w)
+    if still is None:
+        print('replay: ' + detail)
+        return 2
+    print(json.dumps({'still_fails': still, 'detail': detail}, default=str)[:3000])
+    return 1 if still else 0
